@@ -744,6 +744,9 @@ pub struct SimRuntime {
 
 impl quinn::Runtime for SimRuntime {
     fn new_timer(&self, i: std::time::Instant) -> Pin<Box<dyn quinn::AsyncTimer>> {
+        if std::env::var("VERIF_TRACE_TIMERS").is_ok() {
+            return Box::pin(TraceTimer(quinn::TokioRuntime.new_timer(i), NEXT_TIMER.fetch_add(1, std::sync::atomic::Ordering::SeqCst)));
+        }
         quinn::TokioRuntime.new_timer(i)
     }
     fn spawn(&self, future: Pin<Box<dyn Future<Output = ()> + Send>>) {
@@ -756,5 +759,25 @@ impl quinn::Runtime for SimRuntime {
     }
     fn now(&self) -> std::time::Instant {
         tokio::time::Instant::now().into_std()
+    }
+}
+
+static NEXT_TIMER: std::sync::atomic::AtomicU64 = std::sync::atomic::AtomicU64::new(0);
+
+#[derive(Debug)]
+struct TraceTimer(Pin<Box<dyn quinn::AsyncTimer>>, u64);
+
+impl quinn::AsyncTimer for TraceTimer {
+    fn reset(mut self: Pin<&mut Self>, i: std::time::Instant) {
+        let now = tokio::time::Instant::now().into_std();
+        eprintln!("TIMER {} reset to now+{:?}", self.1, i.saturating_duration_since(now));
+        self.0.as_mut().reset(i)
+    }
+    fn poll(mut self: Pin<&mut Self>, cx: &mut Context) -> Poll<()> {
+        let r = self.0.as_mut().poll(cx);
+        if r.is_ready() {
+            eprintln!("TIMER {} fired", self.1);
+        }
+        r
     }
 }
